@@ -38,7 +38,7 @@ def cases(tier, seed):
     out = []
     for cfg in F.configs(b['full_n'], min_count=0):
         out.append(dict(cfg, part='full'))
-    for cfg in F.configs(b['struct_n'], l_max=b['struct_l_max'], min_count=1):
+    for cfg in F.configs(b['struct_n'], l_max=b['struct_l_max'], min_count=1, used=True):
         out.append(dict(cfg, part='structured', pair_cap=b['pair_cap']))
     struct = [c for c in out if c['part'] == 'structured']
     out += [{'part': 'session', 'cfgs': [dict(c, pair_cap=20) for c in seq]}
@@ -63,7 +63,8 @@ def eval_case(cfg):
     V = res['violations']
     d = cfg.get('deformation')
     base_key = {'cls': cfg['cls'], 'size': list(cfg['size']), 'deformation': d[0] if d else None,
-                'axis': d[1].get('deformation_axis', 'default') if d else None, 'part': cfg['part']}
+                'axis': d[1].get('deformation_axis', 'default') if d else None, 'part': cfg['part'],
+                'object': 'used' if cfg.get('pre') else 'fresh'}
     counts = {}
 
     def bad(kind, e, **detail):
